@@ -1,0 +1,41 @@
+//go:build verif
+
+package olla
+
+// Contracts for govc (see /verif/DESIGN.md). Comment-only file: contributes no code.
+
+// ---- C08: the olla engine's per-endpoint circuit breaker (state 0=closed 1=open 2=half-open)
+
+//@ type circuitBreaker
+//@   repinv self.state == 0 || self.state == 1 || self.state == 2
+//@   repinv self.failures >= 0 && self.threshold >= 1
+//@   repinv self.state != 0 ==> self.failures >= self.threshold
+
+//@ func (cb *circuitBreaker) IsOpen
+//@   property C08 C04
+//@   modifies cb.state
+//@   ensures old(cb.state) != 1 ==> res == false && cb.state == old(cb.state)
+//@   ensures old(cb.state) == 1 && now - cb.lastFailure <= 30000000000 ==> res == true && cb.state == 1
+//@   ensures old(cb.state) == 1 && now - cb.lastFailure > 30000000000 ==> res == false && cb.state == 2
+
+//@ func (cb *circuitBreaker) RecordSuccess
+//@   property C08
+//@   modifies cb.failures, cb.state
+//@   ensures cb.failures == 0 && cb.state == 0
+
+//@ func (cb *circuitBreaker) RecordFailure
+//@   property C08
+//@   modifies cb.failures, cb.lastFailure, cb.state
+//@   ensures cb.failures == old(cb.failures) + 1
+//@   ensures cb.lastFailure == now && now >= old(now)
+//@   ensures old(cb.failures) + 1 >= cb.threshold ==> cb.state == 1
+//@   ensures old(cb.failures) + 1 < cb.threshold ==> cb.state == old(cb.state) && cb.state == 0
+//@   ensures old(cb.state) == 2 ==> cb.state == 1
+
+//@ func (s *Service) GetCircuitBreaker
+//@   property C08
+//@   modifies s.circuitBreakers[all]
+//@   ensures res != nil ==> (fresh(res) ==> res.threshold == 5 && res.state == 0 && res.failures == 0)
+//@   ensures old(xhas(s.circuitBreakers, endpoint)) ==> res == old(xget(s.circuitBreakers, endpoint))
+//@   ensures xhas(s.circuitBreakers, endpoint) && xget(s.circuitBreakers, endpoint) == res
+//@   ensures forall k string :: k != endpoint ==> xhas(s.circuitBreakers, k) == old(xhas(s.circuitBreakers, k)) && xget(s.circuitBreakers, k) == old(xget(s.circuitBreakers, k))
